@@ -1473,7 +1473,9 @@ func (p *Parser) attachSiblingsAsArgs(parentObj, targetObj *Object, numArgs uint
 		siblingObj = p.objTree.ObjectAt(siblingIndex)
 		siblingIndex = siblingObj.nextSiblingIndex
 
-		p.objTree.detach(parentObj, siblingObj)
+		// The sibling may belong to the parent's parent (see above), so
+		// detach it from the object that actually holds it.
+		p.objTree.detach(p.objTree.ObjectAt(siblingObj.parentIndex), siblingObj)
 		p.objTree.append(targetObj, siblingObj)
 	}
 	return parseResultOk
